@@ -55,7 +55,7 @@ META = {
             "continuation before returning (Trace); for call/cc in tail position (TCALL) capture and invocation theorems "
             "hold as stated but the normal-return comparison is one instruction off (the RET after the TCALL) and not "
             "stated. Liveness of captured continuations across collections (T05.5) belongs to C03's marker theorems. ROUND 5: the bytecode verifier is value-typed (val | argc n | any) and WF-stack is re-proved for it (all 16 opcodes; continuation snapshots now also record that they resume at a non-prologue instruction and that typed cells hold values); every theorem above is unchanged in statement. (invoke_run_same_result_machine, the statement on concreteOps without the callee guard, was NOT done in round 5: see ROUND 6 below.)",
-    "technique": "Lean 4 proof (capture/restore lemmas over an abstract heap, any later state; write-set and live-read lemmas per instruction over the WF-stack invariant; run-level congruence) + lock-step replay + scenario oracle with closed-form expectations",
+    "technique": "Lean 4 proof (capture/restore lemmas over an abstract heap, any later state; write-set and live-read lemmas per instruction over the WF-stack invariant; run-level congruence) + a definitional CPS specification with first-class continuations (Spec.EvalK; its laws proved; simulates Spec.Eval) judging random call/cc programs on the real VM + lock-step replay + scenario oracle with closed-form expectations",
 }
 MODULE = "Marwood.Proofs.C05"
 THEOREMS = [
